@@ -466,3 +466,40 @@ Proof.
   - exfalso. apply NE. apply SaslProofs.bytes_eqb_eq. exact E.
   - rewrite !andb_false_r. reflexivity.
 Qed.
+
+
+(* ---- the Auth loop hands the mechanism exactly the bytes the server issued ---- *)
+(* T1: in smtp.Client.Auth the decoded challenge reaches a.Next unchanged *)
+Lemma gen_challenge_passed_unchanged : Gen.smtp_auth_challenge_passed_unchanged = true.
+Proof. reflexivity. Qed.
+
+(* for ANY mechanism: the response written after the challenge [chal] (any bytes: leading / trailing / interior blanks,
+   tabs, CR, LF included) is the base64 of what the mechanism's Next returns for exactly [chal] *)
+Lemma auth_loop_passes_challenge : forall S (m : mech S) active name (s s' : S) chal resp rest o,
+  wf_bytes chal = true ->
+  m_next m s chal true = (s', Some (Some resp)) ->
+  o_sent (f_out (auth_loop m active name s code_challenge (b64enc chal) rest o)) =
+  match rest with
+  | Reply c mm :: rest' => o_sent (f_out (auth_loop m active name s' c mm rest' (cmd_out active (b64enc resp) (Reply c mm) o)))
+  | _ => o_sent o ++ [b64enc resp]
+  end.
+Proof.
+  intros S m active name s s' chal resp rest o W N.
+  pose proof (go_b64_roundtrip chal W) as D. unfold go_b64dec in D.
+  destruct rest as [|[c mm|] rest']; cbn [auth_loop];
+    change (code_challenge =? code_challenge) with true; cbv iota; rewrite D, N; reflexivity.
+Qed.
+
+(* CRAM-MD5 through Client.Auth: the line written in answer to the challenge is the RFC 2195 response to exactly the issued
+   bytes, and an RFC 2195 server that computes HMAC-MD5 over the challenge it issued accepts it *)
+Lemma cram_auth_answers_issued_challenge : forall (HMACmd5 : bytes -> bytes -> bytes) user secret chal lad secret_of,
+  wf_bytes chal = true -> secret_of user = Some secret ->
+  let f := auth (cram_mech HMACmd5 user secret) lad false tt [Reply code_challenge (b64enc chal)] in
+  o_sent (f_out f) = [bs "AUTH CRAM-MD5"; b64enc (cram_response HMACmd5 user secret chal)] /\
+  cram_server HMACmd5 secret_of chal (cram_response HMACmd5 user secret chal) = true.
+Proof.
+  intros HM user secret chal lad secret_of W SO. split; [|apply cram_accepted; auto].
+  unfold auth, deferred. cbn [m_start cram_mech f_out].
+  rewrite (auth_loop_passes_challenge unit (cram_mech HM user secret) _ _ tt tt chal (cram_response HM user secret chal) [] _ W eq_refl).
+  reflexivity.
+Qed.
